@@ -11,6 +11,11 @@ Definition funs_big := reachable_funs policy_C18_big gen_funs ["BigIndexWriter.A
 Definition addrow_mem := gen_entry "IndexWriter.AddRow".
 Definition addrow_big := gen_entry "BigIndexWriter.AddRow".
 
+(* explanation printed before the obligations are attempted: what the policies do not know *)
+Definition unknown_to_policy := Eval vm_compute in
+  diagnose policy_C18_mem gen_funs ["IndexWriter.AddRow"] ++ diagnose policy_C18_big gen_funs ["BigIndexWriter.AddRow"].
+Print unknown_to_policy.
+
 Lemma C18_locks_mem : well_locked policy_C18_mem funs_mem addrow_mem = true.
 Proof. vm_compute. reflexivity. Qed.
 Lemma C18_locks_big : well_locked policy_C18_big funs_big addrow_big = true.
